@@ -1012,6 +1012,33 @@ def run(env, res):
     outs = [None] * len(allc)
     for i, r in zip(order, results):
         outs[i] = r
+    # A watchdog timeout in the pool may be nothing but a loaded machine (16 workers run side by side, and other checks
+    # may run next to this one).  Every unexpected timeout is therefore re-tried ALONE, one case at a time, with twelve
+    # times the allowance; only a case that still does not return counts as "does not return".  At most RETRY_MAX cases
+    # are re-tried: if every one of them returns when run alone, the remaining timeouts are put down to load and skipped
+    # (counted in the histogram); if one still hangs, the others keep their timeout verdict.
+    RETRY_MAX = 8
+    timed_out = [i for i, r in enumerate(outs) if r and r['outcome'] in ('timeout', 'worker-died')
+                 and not (allc[i].get('part') in ('S', 'E') and known_nested(allc[i]))]
+    retried = still = 0
+    if timed_out:
+        w = Worker()
+        try:
+            for i in timed_out[:RETRY_MAX]:
+                r2 = w.ask(allc[i], timeout=12 * WATCHDOG)
+                retried += 1
+                if r2['outcome'] in ('timeout', 'worker-died'):
+                    still += 1
+                else:
+                    outs[i] = r2
+        finally:
+            w.kill()
+        if still == 0:
+            for i in timed_out[RETRY_MAX:]:
+                outs[i] = dict(outcome='skipped', pulls=None, maxlen=None)
+    hist['pool_timeouts'] = len(timed_out)
+    hist['pool_timeouts_retried_alone'] = retried
+    hist['pool_timeouts_confirmed'] = still
     pool_s = time.time() - t0
     positions = set()
     pulled = 0
